@@ -273,6 +273,90 @@ def check_pair(ctx, m1, m2, rng):
     ctx.evaluations += 1
 
 
+def valet_exchange(m1, m2, cuts):
+    """Two requests on one kept-alive connection of a real Valet (on an in-memory listener): the first delivered whole
+    and answered, the second delivered in the pieces cut by `cuts`, one service pass of the server after every piece.
+    Returns what the application was called with, per request, and the bytes the server sent."""
+    from ioflo.aio.http import serving as hserving
+    store = hg_clock()
+    net = hg.MemNet()
+    srv = hg.mem_server(net, store, timeout=0.0)
+    seen = []
+
+    def app(environ, start_response):
+        body = environ["wsgi.input"].read() if environ.get("wsgi.input") is not None else b""
+        seen.append({"method": environ.get("REQUEST_METHOD"), "path": environ.get("PATH_INFO"),
+                     "query": environ.get("QUERY_STRING"), "proto": environ.get("SERVER_PROTOCOL"),
+                     "length": environ.get("CONTENT_LENGTH"), "type": environ.get("CONTENT_TYPE"),
+                     "headers": sorted((k, v) for k, v in environ.items() if k.startswith("HTTP_")),
+                     "body": bytes(body)})
+        start_response("200 OK", [("Content-Length", "2")])
+        return [b"ok"]
+    valet = hserving.Valet(servant=srv, store=store, app=app, timeout=0.0)
+    cs = net.connect()
+    c2s = net.conns[0][2]
+    s2c = net.conns[0][3]
+
+    def passes(n):
+        for _ in range(n):
+            net.deliver()
+            valet.serviceAll()
+            net.deliver()
+    passes(1)
+    cs.send(m1["raw"])
+    passes(4)
+    first_out = len(s2c.total)
+    for piece in hg.cut(m2["raw"], cuts):
+        cs.send(piece)
+        passes(1)
+    passes(4)
+    out = bytes(s2c.total)
+    try:
+        valet.close()
+    except Exception:        # noqa
+        pass
+    return seen, out, first_out
+
+
+def hg_clock():
+    from vf.iodoubles import clock
+    return clock()
+
+
+def check_valet(ctx, m1, m2, rng, nsplits):
+    """C29 through a live server: the second request of a kept-alive connection arrives in pieces"""
+    n = len(m2["raw"])
+    try:
+        whole = valet_exchange(m1, m2, ())
+    except Exception as ex:     # noqa
+        ctx.fail("valet/raises/%s" % exc_key(ex), "the server raised %r on two well-formed requests" % (ex,),
+                 lambda: jsonable({"first": m1["raw"], "second": m2["raw"]}))
+        return
+    ctx.hit("valet_exchanges_whole")
+    if len(whole[0]) < 2:
+        ctx.hit("valet_second_request_not_served_even_whole")       # (a first request that ends the connection, ...)
+        return
+    ctx.case(("valet", m1["raw"], m2["raw"]), nontrivial=True)
+    for _ in range(nsplits):
+        cuts = hg.random_split(rng, n, maxpieces=4)
+        if not cuts:
+            continue
+        ctx.event()
+        ctx.hit("valet_split_second_requests")
+        try:
+            got = valet_exchange(m1, m2, cuts)
+        except Exception as ex:     # noqa
+            ctx.fail("valet/raises/%s" % exc_key(ex), "the server raised %r when the second request arrived in pieces" % (ex,),
+                     lambda: jsonable({"first": m1["raw"], "second": m2["raw"], "cuts": list(cuts)}))
+            return
+        if not ctx.check(got[0] == whole[0] and got[1] == whole[1], "valet/split-second-request-differs-from-whole",
+                         "second request of a kept-alive connection split at %s: the application saw %d request(s) (whole: %d), "
+                         "%d response bytes (whole: %d)" % (list(cuts), len(got[0]), len(whole[0]), len(got[1]), len(whole[1])),
+                         lambda: jsonable({"first": m1["raw"], "second": m2["raw"], "cuts": list(cuts),
+                                           "seen_split": got[0], "seen_whole": whole[0], "sent_split": got[1][-200:], "sent_whole": whole[1][-200:]})):
+            return
+
+
 def gen_for(seed, idx, short, seps=None):
     import random
     rng = random.Random("c29/%d/%d/%s" % (seed, idx, short))
@@ -293,6 +377,13 @@ def worker(ctx, job):
         check_message(ctx, m, rng, 0, deadline)
         if len(ctx.samples) < 1:
             ctx.sample(jsonable({"message": m["raw"] + m["tail"], "splits": "all <=3 pieces"}))
+    # the same through a live server: pairs of requests on one kept-alive connection
+    import random as _random
+    vr = _random.Random("c29valet/%d/%d" % (ctx.seed, job["long"][0] if job["long"] else 0))
+    for _ in range(job.get("nvalet", 0)):
+        m1 = hg.gen_message(vr, kind="request", maxbody=30, tail=b"", lf=False)
+        m2 = hg.gen_message(vr, kind="request", maxbody=60, tail=b"", lf=False)
+        check_valet(ctx, m1, m2, vr, 6)
     prev = None
     for idx in job["long"]:
         m, rng = gen_for(ctx.seed, idx, False)
@@ -313,7 +404,7 @@ def run(ctx):
     for j in range(njobs):
         jobs.append({"short": list(range(j * nshort, (j + 1) * nshort)),
                      "long": list(range(j * nlong, (j + 1) * nlong)),
-                     "nrandom": ctx.pick(40, 120), "budget": ctx.pick(25, 900)})
+                     "nrandom": ctx.pick(40, 120), "budget": ctx.pick(25, 900), "nvalet": ctx.pick(12, 600)})
     ctx.shard(jobs, timeout=ctx.pick(60, 1500))
     ctx.floor("distinct_nontrivial", ctx.pick(100, 3000))
     ctx.floor("whole_parses", ctx.pick(120, 3500))
@@ -328,6 +419,7 @@ def run(ctx):
     ctx.floor("pipelined_tail", ctx.pick(60, 1800))
     ctx.floor("sep:nosp", ctx.pick(20, 300))
     ctx.floor("bare_lf_heads", ctx.pick(3, 150))
+    ctx.floor("valet_split_second_requests", ctx.pick(300, 15000))
     for fl in ("request/length", "request/chunked", "request/none", "response/length", "response/chunked",
                "response/close", "response/nobody"):
         ctx.floor("flavour:" + fl, ctx.pick(3, 120))
